@@ -708,6 +708,9 @@ func (s *Epoch) GetNodeByOffsetAndSize(ctx context.Context, wantedCid *cid.Cid, 
 	if offsetAndSize.Size == 0 {
 		return nil, fmt.Errorf("offsetAndSize.Size must not be 0")
 	}
+	if offsetAndSize.Size > uint64(util.MaxAllowedSectionSize) { // Don't OOM
+		return nil, fmt.Errorf("offsetAndSize.Size %d is bigger than util.MaxAllowedSectionSize", offsetAndSize.Size)
+	}
 	offset := offsetAndSize.Offset
 	length := offsetAndSize.Size
 	if s.localCarReader == nil {
